@@ -1,5 +1,6 @@
 import Martian.Semaphore
 import Martian.SemaphoreSys
+import Martian.SemaphoreQueue
 import Driver.Util
 
 /-! Line-protocol handler for property C12.
@@ -16,6 +17,11 @@ import Driver.Util
   then `|` and the number of actions taken.
 * `C12.norm  <maxCores,maxMemGB,maxVmemMB,threadsPerJob,memGBPerJob,extraVmemGB>  <memCur>  <vmemCur>  <centi,memMb,vmemMb>`
   Reply: `centi,memMb,vmemMb|cores,mem,vmem,procs` (normalised request | Acquire amounts).
+* `C12.queue  <grace>  <limit>  <jobs>  <events>`: the queue-query reconciliation
+  (Martian/SemaphoreQueue.lean). jobs `;`-separated `jobid:<0|1 has a job id>:<st>:<disk>` with states
+  `q r d f n`; events `,`-separated: `I<t>` queryQueue called, `A<t>:<hex of the command's stdout>` /
+  `A<t>:!` (command failed) the query finishes, `R<t>` refreshState, `P<jobid>:<st>` the job writes files.
+  Reply per event, `;`-separated: `<last|->|<ids in flight +-separated | ->|<st>/<since|->,…`.
 -/
 namespace Driver.C12
 open Martian.Semaphore
@@ -110,8 +116,73 @@ def parseJob (t : String) : Option (Nat × List Int) :=
 
 def b01 (b : Bool) : String := if b then "1" else "0"
 
+namespace QQ
+open Martian.SemaphoreQueue
+
+def parseJSt : String → Option JSt
+  | "q" => some .queued
+  | "r" => some .running
+  | "d" => some .done
+  | "f" => some .failed
+  | "n" => some .notQueued
+  | _ => none
+
+def showJSt : JSt → String
+  | .queued => "q"
+  | .running => "r"
+  | .done => "d"
+  | .failed => "f"
+  | .notQueued => "n"
+
+def parseJob (t : String) : Option Job :=
+  match t.splitOn ":" with
+  | [id, h, a, b] => do
+    let st ← parseJSt a
+    let dk ← parseJSt b
+    let hid ← (if h == "1" then some true else if h == "0" then some false else none)
+    pure ⟨id, hid, st, dk, none⟩
+  | _ => none
+
+def asciiOfBytes (bs : List UInt8) : String := String.ofList (bs.map fun b => Char.ofNat b.toNat)
+
+def parseEv (t : String) : Option Martian.SemaphoreQueue.Ev :=
+  if t.startsWith "I" then do let n ← (t.drop 1).toString.toNat?; pure (.issue n)
+  else if t.startsWith "R" then do let n ← (t.drop 1).toString.toNat?; pure (.refresh n)
+  else if t.startsWith "A" then
+    match (t.drop 1).toString.splitOn ":" with
+    | [a, b] => do
+      let n ← a.toNat?
+      if b == "!" then pure (.answer n none) else do
+        let bs ← Driver.bytesOfHex b
+        pure (.answer n (some (parseAnswer (asciiOfBytes bs))))
+    | _ => none
+  else if t.startsWith "P" then
+    match (t.drop 1).toString.splitOn ":" with
+    | [id, st] => do let d ← parseJSt st; pure (.progress id d)
+    | _ => none
+  else none
+
+def showOptNat : Option Nat → String
+  | none => "-"
+  | some n => toString n
+
+def showQ (s : Q) : String :=
+  showOptNat s.last ++ "|" ++
+  (match s.active with
+   | none => "-"
+   | some ids => "+".intercalate ids) ++ "|" ++
+  ",".intercalate (s.jobs.map fun j => showJSt j.st ++ "/" ++ showOptNat j.since)
+
+end QQ
+
 def handle (op : String) (args : List String) : Option String :=
   match op, args with
+  | "queue", [grace, limit, jobs, evs] => do
+    let g ← nat? grace
+    let l ← nat? limit
+    let js ← (jobs.splitOn ";").mapM QQ.parseJob
+    let es ← parseList QQ.parseEv evs
+    pure (";".intercalate ((Martian.SemaphoreQueue.trace ⟨g, l, none, none, js⟩ es).map QQ.showQ))
   | "sem", [size, ops] => do
     let m ← int? size
     let ops ← parseList parseSemOp ops
